@@ -41,6 +41,7 @@ func checkC01(w *World, r *Report) {
 			roots10 = append(roots10, w.ssaFunc(w.method("Engine", m)))
 		}
 		reach10 := w.reachableFrom(roots10)
+		checkPooledContainersNotData(w, r, "R01.12")
 		checkSharedCounters(w, r, "R01.10", w.pkgFuncs(), reach10, func(owner string, root ssa.Value) bool {
 			g, isG := root.(*ssa.Global)
 			return isG && !isSyncPool(deref(g.Type()))
